@@ -14,6 +14,7 @@ import copy
 import math
 import random
 
+import casadi as cs
 import numpy as np
 
 from vf import desc as D, drive, gen as G, oracle as O, primmon, refmodel as R, workloads as W
@@ -309,6 +310,58 @@ def multistep_neutral(M, rec, rng, g, n_runs, steps=12):
                 break
 
 
+def relocated_signs(M, rec, rng, g, n_runs, steps=5):
+    """A simulation in which signs are relocated while it runs: `link.vsl` (the live list) is edited in place between steps.
+    Every call of the primitive is decided by the in-situ postcondition (listed segments limited, the others untouched);
+    the same for direct calls that pass one list object again after the caller edited it."""
+    from vf import workloads as W_
+
+    NE, CE = drive.engines(M)
+    for it in range(n_runs):
+        _, desc = g.network(rng.choice(("chain", "ramp", "random", "merge", "bifurcation")), force=("vsl",))
+        if not any(l.get("vsl") and l["N"] > len(l["vsl"]) for l in desc["links"]):
+            continue
+        pars = g.pars()
+        kw = drive.step_pars(pars)
+        built = D.build(M, desc)
+        eng = NE()
+        for k in range(steps):
+            _, vals = g.values(desc, "interior", allow_inf=False)
+            try:
+                built.net.step(init_conditions=drive.np_init(built, vals, "vec1"), engine=eng, **kw)
+            except Exception as e:
+                rec.violation(f"{PROP}:relocated signs:numpy: stepping raised {type(e).__name__}", {"desc": desc, "exception": repr(e)[:300]})
+                break
+            if k:
+                rec.count("steps_after_a_sign_was_relocated")
+            W_.relocate_signs_inplace(built, desc, rng)
+    for side in ("numpy", "casadi"):
+        import sym_metanet.engines.casadi as EC
+        import sym_metanet.engines.numpy as EN
+
+        E = EN if side == "numpy" else EC
+        for it in range(n_runs):
+            N = rng.choice((3, 4, 6))
+            vsl = sorted(rng.sample(range(N), rng.randint(1, N - 1)))
+            for k in range(4):
+                rho = [rng.uniform(5.0, 120.0) for _ in range(N)]
+                vc = [rng.uniform(15.0, 70.0) for _ in vsl]
+                mk = (lambda xs: np.array(xs, float)) if side == "numpy" else (lambda xs: cs.DM(xs))
+                try:
+                    E.LinksEngine.controlled_Veq(mk(rho), mk(vc), vsl, rng.choice((0.0, 0.1)), 102.0, 33.5, 1.867)
+                except Exception as e:
+                    rec.violation(f"{PROP}:relocated signs:{side}: controlled_Veq raised {type(e).__name__} on a list the caller edited in place",
+                                  {"exception": repr(e)[:300], "vsl": list(vsl)})
+                    break
+                if k:
+                    rec.count("direct_calls_after_the_list_was_edited")
+                free = [i for i in range(N) if i not in vsl]
+                if k % 2 == 0 and free:
+                    vsl[rng.randrange(len(vsl))] = rng.choice(free)
+                else:
+                    vsl.reverse()
+
+
 def dec_cveq(kind, args, kwargs, res, rec):
     names = ("rho", "v_ctrl", "vsl", "alpha", "v_free", "rho_crit", "a")
     a = dict(zip(names, args))
@@ -378,6 +431,7 @@ def run(M, rec, tier, seed, k, n):
         batched.batched_primitives(M, rec, rng, PROP, 300 if tier == "quick" else 3000, which=("controlled_Veq",), monitors=(pm,))
         relations(M, rec, rng, 160 if tier == "quick" else 1200, symvals)
         multistep_neutral(M, rec, rng, G.NetGen(rng), 40 if tier == "quick" else 300)
+        relocated_signs(M, rec, rng, G.NetGen(rng), 40 if tier == "quick" else 300)
     finally:
         pm.uninstall()
     rec.sample({"relations": sorted(rec.cover.get("relations", []))})
